@@ -154,6 +154,37 @@ class Session:
             self.ended_by = "cut"
             self.outcomes.append(["SENT+CUT"])
             return False
+        if kind == "xfer_abort":
+            # start a download of a file larger than every buffer, read a little, stop reading and ABOR it
+            verb, arg, nread = st[1], st[2], st[3]
+            if self.data is None:
+                try:
+                    self.data = await p.open_data(self.pasv_port)
+                except OSError:
+                    self.outcomes.append(["REFUSED"])
+                    return True
+            r1 = await p.cmd(f"{verb} {arg}")
+            codes = self._codes(r1)
+            if self._dead(r1):
+                self.outcomes.append(codes)
+                return False
+            dr, dw = self.data
+            got = b""
+            if r1.code.startswith("1"):
+                got, status = await p.read_data(dr, wait=10, limit=nread)
+                # two replies follow: the transfer's own completion (426, or 2xx if it had already finished)
+                # and the reply to ABOR (226)
+                r2 = await p.cmd("ABOR")
+                codes += self._codes(r2)
+                if not self._dead(r2):
+                    r3 = await p.read_reply()
+                    codes += self._codes(r3)
+                    self._dead(r3)
+            dw.close()
+            self.data = None
+            self.outcomes.append(codes)
+            self.downloads.append([verb, arg, b"", "aborted"])
+            return self.alive
         if kind == "cut_then_data":
             # the control connection vanishes and, i loop iterations later, the data
             # connection the peer had already started arrives at the passive listener
@@ -306,6 +337,8 @@ def corpus(prefix="", tree_has=("f.bin", "dir/g.txt")):
     S["stor_unreachable"] = login + [["epsv"], ["xfer", "STOR", f"{P}/no/such/dir/f", 10], ["cmd", "PWD"], ["quit"]]
     S["stor_slow"] = login + [["epsv"], ["xfer", "STOR", f"{P}/slow.bin", 20000, "before", 0, 2000, 0.002], ["quit"]]
     S["retr_huge"] = login + [["pasv"], ["xfer", "RETR", f"{P}/huge.bin"], ["quit"]]
+    S["abor_mid"] = login + [["pasv"], ["xfer_abort", "RETR", f"{P}/huge.bin", 30000], ["cmd", "PWD"], ["epsv"],
+                             ["xfer", "RETR", f"{P}/dir/g.txt"], ["quit"]]
     S["relogin"] = login + [["cmd", f"CWD {P}/dir"], ["login"], ["cmd", "PWD"], ["quit"]]
     return S
 
